@@ -125,6 +125,7 @@ class Engine:
         s.completed_samples = []
         s.sample_cap = 6
         s.sample_every = 0
+        s.stop_after = 0; s.stop_distinct = 1
         s.fn_called = set()
         s.const_arrays = {}
         s.crc_memo = {}
@@ -586,12 +587,12 @@ class Engine:
     def cstring(s, st, ptr, maxlen=4096):
         o = s.obj_of(st, ptr, 'string read'); out = []
         i = ptr.off
-        if type(i) is not int: raise EngineLimit('symbolic string pointer')
+        if type(i) is not int: i = s.concretize(st, i, 'string pointer offset', 64)
         while True:
             if i >= o.size: raise Violation('out-of-bounds', 'unterminated string read past object %s' % o.name, s.model_dict(st))
             c = o.data[i]
             if c is None: c = 0
-            if type(c) is not int: c = s.concretize(st, bv(s.cell_bv(c), 8), 'string byte', 4)
+            if type(c) is not int: c = s.concretize(st, bv(s.cell_bv(c), 8), 'string byte', 256)
             if c == 0: break
             out.append(c); i += 1
             if len(out) > maxlen: raise EngineLimit('string too long')
@@ -820,12 +821,32 @@ class Engine:
             except z3.Z3Exception as e:
                 s.limits.append({'msg': 'z3 exception: %s' % e, 'where': s.where(st)})
             s.paths += 1
+            if s.stop_after and len(s.violations) >= s.stop_after:
+                kinds = {(v['kind'], v['where']) for v in s.violations}
+                if len(kinds) >= s.stop_distinct or len(s.violations) >= 50 * s.stop_after:
+                    break
         if stopped: s.limits.append({'msg': stopped, 'where': ''})
         return time.time() - t0
 
+    def leaked_objects(s, st):
+        """heap objects that are still allocated and NOT reachable from a global (thread-local caches and other still-reachable
+        allocations are not leaks — the same rule LeakSanitizer applies in the native replay)"""
+        mem = st.mem
+        reach = set(); work = [oid for oid, o in mem.items() if o.kind == 'global']
+        while work:
+            oid = work.pop()
+            o = mem.get(oid)
+            if o is None or o.kind in ('freed', 'func') or o.arr is not None: continue
+            for c in o.data:
+                if type(c) is tuple and c[1] == 0 and c[0].__class__ is Ptr:
+                    t = c[0].obj
+                    if t not in reach and t in mem:
+                        reach.add(t); work.append(t)
+        return [o.name for oid, o in mem.items() if o.kind == 'heap' and oid not in reach]
+
     def finish_path(s, st):
         if s.check_leaks:
-            leaked = [o.name for o in st.mem.values() if o.kind == 'heap' and not st.env.get('leak_ok:' + o.name)]
+            leaked = s.leaked_objects(st)
             if leaked:
                 s.violations.append({'kind': 'memory-leak', 'msg': 'heap objects still allocated at the end of the path: %s' % ', '.join(leaked[:6]),
                                      'model': s.model_dict(st), 'where': 'path end', 'notes': st.notes[-8:], 'choices': st.choices[:]})
